@@ -979,6 +979,7 @@ func checkC04(w *World, r *Report) {
 	r.Rule("C04.conserve", "P5,P6", "= C03.conserve: the primary destination receives exactly what is left after every named share and the burn share were taken off - on every path, once, and a collected inflow is always distributed", 6)
 	r.Rule("C04.fraction", "P6", "the fraction used for a destination is that destination's own Share (resp. the sub-distributor's BurnShare), applied to the sub-distributor's total inflow, and credited to that same destination", 4)
 	r.Rule("C04.inflow", "P6", "= C03.inflow: the inflow of which every destination receives its fraction is the main account's balance minus the sum of the remains of the full, current state list (an inflow computed from a stale sum or balance under- or overstates what every destination of that sub-distributor gets)", 3)
+	r.Rule("C04.carry", "P5", "= C14.success: what a destination is owed stays in its state until the transfer that pays it succeeded: the state is reduced only on the success edge of the bank call, by exactly what was sent (a state emptied before a transfer that then fails forgets the destination's share and hands it to the others as fresh inflow)", 9)
 	r.Rule("C04.order", "P4,P6", "= C03.order: the outcome must not depend on the order in which sources are listed", 1)
 	if !ro.checkFloors(r) {
 		return
@@ -1329,6 +1330,7 @@ func checkC04(w *World, r *Report) {
 	}
 	orderRule(w, r, "C04.order", a)
 	shareRule(w, r, checkC03, "C03.inflow", "C04.inflow", nil)
+	successRule(w, r, "C04.carry")
 	conserveRule(w, r, "C04.conserve", a)
 }
 
